@@ -563,9 +563,21 @@ pub fn run_access<W: WorldSpec>(w: &W, m: &Model, stats: &mut Stats, held: &mut 
                 held_ref.pop();
             }
             AccKind::CloneWorld => {
-                let c = w.clone();
-                *ran = true;
-                drop(c);
+                // a fork taken while shared borrows are held; every other one is kept as a replica
+                let tok = rt::log_scope_begin();
+                let r = std::panic::catch_unwind(std::panic::AssertUnwindSafe(|| w.clone()));
+                let seg = rt::log_scope_end(tok);
+                match r {
+                    Ok(c) => {
+                        *ran = true;
+                        if acc.ent % 2 == 1 && rt::forks_stashed() == 0 {
+                            rt::stash_fork(Box::new(c), Box::new(m.clone()), seg);
+                        } else {
+                            drop(c);
+                        }
+                    }
+                    Err(p) => std::panic::resume_unwind(p),
+                }
             }
             AccKind::CloneArch => {
                 drv.clone_and_drop(w);
@@ -659,6 +671,7 @@ impl<W: WorldSpec> Engine<W> {
         }
         rt::h(&[0x4E57, accs.len() as u64]);
         self.stats.inc("nest_op");
+        self.adopt_forks(wid);
         self.check_all_released(wid, "nested runtime-borrowed accesses");
     }
 
@@ -761,6 +774,8 @@ impl<W: WorldSpec> Engine<W> {
         rt::disarm();
         rt::h(&[0x9E47, si as u64, mac as u64, k as u64]);
         self.yields.push((self.step, 0, k as u32));
+        // borrow-mode queries change no structure: the book's natives are those of the fork instant
+        self.adopt_forks(wid);
         if gecs_drops_only && drop_calls > 0 {
             self.yields.push((self.step, 5, drop_calls));
         }
